@@ -16,9 +16,11 @@ CLAIMS = {
    text="Lean 4 theorems about the model `Ndt.dea3` over every linearly ordered field: exact recovery of L from L+a q^k "
         "outside the documented guard (tiny=0, and the exact perturbation for tiny>0); abserr>=0, abserr>=|result-e2| and "
         ">=|d1|+|d2| for all inputs; no zero denominator in the dividing branch; elementwise/symmetric list semantics. "
-        "The same definition at Float is compared bit for bit with numpy's dea3 on every run. Partial: rounding is "
+        "The elementwise body of dea3 is regenerated from extrapolation.py on every run (numpy-elementwise fragment of the translator: "
+        "tuple and masked assignments, np.where, comparisons) and dea3_generated proves it equal to the model for every carrier; "
+        "the generated definition at Float is compared bit for bit with numpy's dea3 on every run. Partial: rounding is "
         "explored (search with a first-order rounding envelope), not proved.",
-   technique="Lean 4 proof over ordered fields + bit-exact Float correspondence of the same definition"),
+   technique="Lean 4 proof over ordered fields on a definition regenerated from the source + bit-exact Float correspondence"),
  'C07': dict(
    text="Lean 4 theorems about the model of Richardson (rule = Lagrange basis coefficients of node 1 among the nodes "
         "rho^-(order+step c); call = correlation): weights sum to one and annihilate every modelled power for any field "
